@@ -53,6 +53,8 @@ type Evaluator struct {
 	Steps   int
 	MaxStep int
 	Globals map[*ssa.Global]Val // optional known global values (pointer cells)
+	// LoadGlobal evaluates the closed initialiser of a package variable on first use
+	LoadGlobal func(g *ssa.Global) (Val, error)
 }
 
 func NewEvaluator(sizes types.Sizes) *Evaluator {
@@ -163,6 +165,14 @@ func (ev *Evaluator) get(fr *frame, v ssa.Value) Val {
 		return x
 	case *ssa.Global:
 		if c, ok := ev.Globals[x]; ok {
+			return c
+		}
+		if ev.LoadGlobal != nil {
+			c, err := ev.LoadGlobal(x)
+			if err != nil {
+				fail("read of global %s: %v", x.Name(), err)
+			}
+			ev.Globals[x] = c
 			return c
 		}
 		fail("read of global %s not modelled", x.Name())
